@@ -313,11 +313,11 @@ Proof.
   - intros [H|H]; auto.
 Qed.
 
-Lemma list_exact_lemma : forall d st lsub ref pat, NoDup (offered st lsub) -> pat <> [] ->
-  NoDup (map fst (impl_list d st lsub ref pat)) /\
-  forall m sel, In (m, sel) (impl_list d st lsub ref pat) <-> spec_listed d st lsub ref pat m sel.
+Lemma get_matches_exact : forall d st lsub ref pat, NoDup (offered st lsub) -> pat <> [] ->
+  NoDup (map fst (get_matches d lsub ref pat (list_input st lsub))) /\
+  forall m sel, In (m, sel) (get_matches d lsub ref pat (list_input st lsub)) <-> spec_listed d st lsub ref pat m sel.
 Proof.
-  intros d st lsub ref pat ND P. unfold impl_list, offered in *.
+  intros d st lsub ref pat ND P. unfold offered in *.
   set (mbs := list_input st lsub) in *.
   destruct (get_matches_spec d lsub ref pat mbs) as [N S]. split; auto.
   intros m sel. rewrite S. unfold spec_listed, hit, offered, offered_selectable. fold mbs. cbn [fst].
@@ -352,6 +352,11 @@ Proof.
       * exfalso. apply NI. destruct (mm_lookup_some mbs m e' L) as [L1 L2]. rewrite <- L2. apply in_map. auto.
       * subst sel. destruct lsub; simpl; auto. rewrite (Q eq_refl). reflexivity.
 Qed.
+
+Lemma list_exact_lemma : forall d st lsub ref pat, NoDup (offered st lsub) -> pat <> [] ->
+  NoDup (map fst (impl_list d st lsub ref pat)) /\
+  forall m sel, In (m, sel) (impl_list d st lsub ref pat) <-> spec_listed d st lsub (parse_mailbox ref) pat m sel.
+Proof. intros d st lsub ref pat ND P. unfold impl_list. apply get_matches_exact; auto. Qed.
 
 (* the offered names are distinct in a well-formed state *)
 Lemma NoDup_map_filter : forall (A B : Type) (f : A -> B) (p : A -> bool) l, NoDup (map f l) -> NoDup (map f (filter p l)).
